@@ -98,7 +98,8 @@ Decide(r) ==
                       errs |-> errs \cup (IF MayNotParse(r) THEN {"UrlParsing"} ELSE {})]
   ELSE IF dials /\ r.endpoint = "refused" THEN
         [kind |-> "Err", route |-> NoRoute,
-         errs |-> {"Io"} \cup (IF MayNotParse(r) THEN {"UrlParsing"} ELSE {})]
+         errs |-> {"Io"} \cup (IF MayNotParse(r) THEN {"UrlParsing"} ELSE {})
+                       \cup (IF r.timeout = "short" /\ route.via = "tcp" THEN {"Timeout"} ELSE {})]
   ELSE IF needsPeer /\ r.endpoint = "silent" THEN
         (IF r.timeout = "short"
          THEN [kind |-> "Err", route |-> NoRoute,
